@@ -140,6 +140,21 @@ Definition exec_insert (prof : profile) (c : container) (p : pool) (ts : tables)
   c' <- store_rows prof c t (map snd m') ;;
   Ok (c', p').
 
+(* Insert::check: every check of exec without changing anything (the prefix of exec_insert up to the first mutation) *)
+Definition exec_insert_check (prof : profile) (c : container) (p : pool) (ts : tables) (tname : str) (new_rows : list (list value))
+  : res unit :=
+  t <- of_opt (find_table ts tname) ;;
+  _ <- validate_new_rows t new_rows ;;
+  let new_rows := map (map normalize_value) new_rows in
+  let kidx := pk_indices t in
+  old <- load_rows c t ;;
+  m <- load_keyed prof p kidx old [] ;;
+  _ <- check_new_keys kidx m [] new_rows ;;
+  match MAX_ROWS_INSERT with
+  | Some lim => if lim <? nlen m + nlen new_rows then Err else Ok tt
+  | None => Ok tt
+  end.
+
 (* ---- DELETE ----------------------------------------------------------------------- *)
 Fixpoint remove_refs (prof : profile) (p : pool) (r : list vref) : res pool :=
   match r with
